@@ -280,7 +280,12 @@ func Assert(id string, c bool) {
 func Reach(id string) { Reached = append(Reached, id) }
 
 // Known declares the predicate that characterises a recorded finding (see known_findings.json).
-func Known(id string, c bool) {}
+// Known: natively only recorded (a run inside a recorded finding's predicate is not a new violation).
+func Known(id string, c bool) {
+	if c {
+		Notes = append(Notes, "known-finding-predicate-holds: "+id)
+	}
+}
 
 // NoPanic runs f; a panic of the code under test is a violation of obligation id. Reports whether f panicked.
 func NoPanic(id string, f func()) (panicked bool) {
